@@ -750,11 +750,12 @@ def Mem.openFrom (m : Mem) (ft : Nat) : Mem :=
         let mb := if delta.nonEmpty then ma.rebuildIndexes delta.embs delta.inserted ft else ma.flushTantivy ft
         mb.checkpoint
   -- `load_memories_track`, `load_sketch_track`
+  -- (without a manifest the tracks built by the WAL replay stay as they are)
   { m2 with
-    cards := match m2.pCards with | some c => c.1 | none => []
-    enrRecs := match m2.pCards with | some c => c.2 | none => []
+    cards := match m2.pCards with | some c => c.1 | none => m2.cards
+    enrRecs := match m2.pCards with | some c => c.2 | none => m2.enrRecs
     -- the persisted sketch track stores no frame ids: entries come back numbered 0..n-1 (C39 finding)
-    sketch := List.range m2.pSketch.length }
+    sketch := if m2.pSketch.isEmpty then m2.sketch else List.range m2.pSketch.length }
 
 /-- drop the handle (commit when dirty) and open the file again -/
 def Mem.reopen (m : Mem) (ftDrop ftOpen : Nat) : Mem × Out :=
@@ -892,7 +893,7 @@ def showFrame (frames : List Frame) (f : Frame) : String :=
     [toString f.id, f.uri, f.status.show, f.role.show, showOptNat f.parent, showOptNat f.supersedes,
      showOptNat f.supersededBy, toString f.ts, showOptStr f.kind, showOptStr f.track,
      showList "+" f.tags, showList "+" f.labels, showOptNat f.chunkIndex, showOptNat f.chunkCount,
-     showOptNat f.manifest, (if isManifestDoc f then f.content else ownContent f), canon frames f,
+     showOptNat f.manifest, (if isManifestDoc f then "M" else ownContent f), canon frames f,
      toString (if f.len = 0 then 0 else f.off), toString f.len]
 
 def natLe (a b : Nat) : Bool := decide (a ≤ b)
@@ -910,7 +911,7 @@ def showNats (l : List Nat) : String := showList "," (l.map toString)
 
 /-- header part of the observation -/
 def obsHead (m : Mem) : String :=
-  s!"fc={m.frames.length} nf={m.nextFrameId} pi={m.pendingInserts} pend={m.pending.length} seq={m.seq} " ++
+  s!"fc={m.frames.length} nf={m.nextFrameId} pi={m.pendingInserts} pend={if m.pending.isEmpty then 0 else 1} seq={m.seq} " ++
   s!"dirty={if m.dirty then 1 else 0} ws={m.walSize} pe={m.payloadEnd} de={m.dataEnd} ft={m.footer} " ++
   s!"cap={m.capacityLimit} ve={if m.vecEnabled then 1 else 0} vec={showVec m.vec} time={showTime m.time} " ++
   s!"td={if m.tantivyDirty then 1 else 0} q={showNats m.queue} cards={showNats m.cards} " ++
